@@ -123,6 +123,16 @@ def real_sweep(ctx, n_cases, n_special):
             case = {"sources": [a, b],
                     "sensors": [{"pos": [[0.0, 0.0, 0.0]], "rot": [[0.0, 0.0, 0.0]], "pixel": lr.inside_point(ctx.rng, b), "left": False}]}
             check_real(ctx, case, "last-group-of-one")
+    # equal bodies with different excitations share a group: each row must keep its own excitation
+    for cls in ("TriangularMesh", "Tetrahedron", "Cuboid", "CylinderSegment"):
+        for _ in range(max(2, n_cases // 20)):
+            a = lr.g_leaf(ctx.rng, 1, cls)
+            b = lr.g_leaf(ctx.rng, 1, cls)
+            b = dict(b, args=dict(a["args"], pol=lr.g_pol(ctx.rng)))
+            pts = [lr.inside_point(ctx.rng, b), lr.inside_point(ctx.rng, a)]
+            case = {"sources": [a, b],
+                    "sensors": [{"pos": [[0.0, 0.0, 0.0]], "rot": [[0.0, 0.0, 0.0]], "pixel": pts, "left": False}]}
+            check_real(ctx, case, "equal-bodies-different-excitation")
 
 
 def check_real(ctx, case, kind):
